@@ -38,7 +38,9 @@ def sig_of(key, verdict):
         return re.sub(r'\[[^\]]*\]|\d+', '', d)
     fields = sorted({norm(m) for m in mut.split(' & ')})
     if any('block_log' in f for f in fields):
-        return f'{kind}:resources:block-size-exponent'
+        # exponents >= 64 are refused outright since the repair; only the range below is a listed finding
+        vals = [int(m.rsplit(':=', 1)[1], 16) for m in mut.split(' & ') if 'block_log' in m and ':=' in m]
+        return f'{kind}:resources:block-size-exponent' + ('<64' if all(v < 64 for v in vals) else '>=64')
     return f'{kind}:{what}:{"+".join(fields)}'
 
 
